@@ -506,6 +506,26 @@ impl ReferenceProcessor<Arc<AtomicU32>, InsertReferencesResult, InsertReferences
             }
         }
 
+        /* The new contents must be completely on disk before they replace the original file. */
+        let flush_result = match scratch_file.file().flush().await
+        {
+            Ok(_) => scratch_file.file().sync_all().await,
+            Err(e) => Err(e),
+        };
+
+        if let Err(e) = flush_result
+        {
+            task::spawn(async move {
+                error!("[ref: 36] Failed to flush temporary file: {}", e);
+            })
+            .await;
+
+            return Some(InsertReferencesResult {
+                failure: true,
+                num_inserted_references: 0,
+            });
+        }
+
         match async_std::fs::rename(scratch_file.path(), path).await
         {
             Ok(_) =>
